@@ -1,7 +1,8 @@
 (* C11 — A workflow that loads is structurally executable; a broken one is rejected.
    Model of (i) validate_object_schema (flowir.py) as a generic schema interpreter [check] over
    Python-like values, the schema VALUE being regenerated from the running code into
-   Valid/Generated.v on every run, and (ii) the accept/reject verdict of loading a workflow with
+   Valid/Generated.v on every run, (ii) FlowIR.convert_component_types (the coercion of option values that precedes
+   the schema check: [convert], [expected_types]) and (iii) the accept/reject verdict of loading a workflow with
    validation enabled (FlowIRConcrete construction, FlowIRExperimentConfiguration._initialize,
    FlowIRConcrete.validate / FlowIR.validate_component / validate_references) over a small
    structured workflow.  Total computable definitions only. *)
